@@ -17,6 +17,8 @@ def register_p2(reg, prop):
             "self._parse_message_body": {"record_as": "parse", "may_raise": "AnyException", "modifies": ["msg._blocks"],
                                          "doc": "template-directed body parse: fills msg._blocks, may fail on any malformed body"},
             "weakref.ref": {"returns": "Opaque:Any", "doc": "weak reference to the deserializer"},
+            # not called by the current body; declared so that moving the expansion here stays within reach of the contract
+            "self.zero_code_expand": {"returns": "Bytes", "may_raise": "ValueError", "doc": "zero-code expansion (own contract, C03)"},
         },
         may_raise={"AnyException": ""},
         ensures=[
